@@ -36,7 +36,7 @@ func (c cfg) sx() Sx {
 }
 
 type op struct {
-	kind    string // c | fork | merge | floor
+	kind    string // c | fork | merge | floor | init
 	b       int    // branch (c, fork)
 	idx     int    // DependencyIndex (c)
 	hash    int    // (c)
@@ -47,6 +47,7 @@ type op struct {
 	n       int    // clones (fork)
 	bs      []int  // branches (merge)
 	d       int64  // duration in ns (floor)
+	v       int    // init: 0 = Initialize only; Configure + Initialize with 1 = the same facts map as it is, 2 = a fresh facts map, 3 = the same map with the option set again
 }
 
 func (o op) sx() Sx {
@@ -59,6 +60,8 @@ func (o op) sx() Sx {
 		return T("merge", Ints(o.bs))
 	case "floor":
 		return T("floor", I64(o.sec), I64(o.nsec), I64(o.d), I(o.tz))
+	case "init":
+		return T("init", I(o.v))
 	}
 	panic("op kind " + o.kind)
 }
@@ -85,6 +88,8 @@ func parseOp(s Sx) op {
 		}
 	case "floor":
 		o.sec, o.nsec, o.d, o.tz = i64(a[0]), i64(a[1]), i64(a[2]), a[3].Int()
+	case "init":
+		o.v = a[0].Int()
 	default:
 		panic("unknown op " + o.kind)
 	}
@@ -149,27 +154,45 @@ func regSx(tag string, reg map[int][]plumbing.Hash) Sx {
 	return T(tag, items...)
 }
 
+// bigLimit: a case with more operations than this is recorded compactly ("big" mode): per Consume
+// only the tick, per Fork only the index of the first clone; previousTick of every branch, tick0
+// and the registries are recorded at the end of every analysis (at every init and at the end of
+// the case) instead of after every step.
+const bigLimit = 1500
+
+func sameMap(a, b map[int][]plumbing.Hash) bool {
+	return reflect.ValueOf(a).Pointer() == reflect.ValueOf(b).Pointer()
+}
+
+// runCase plays the lifecycle of one TicksSinceStart: Configure, Initialize, the operations; an
+// init operation initialises the item AGAIN (the pipeline does that when it is run twice) and
+// drops the forks.  The registry is observed twice: the private map (VerifCommits) and the map
+// the item PUBLISHED, i.e. the value of facts[FactCommitsByTick] captured right after Configure,
+// as a downstream item (leaves/comment_sentiment.go) captures it.
 func runCase(c cfg, ops []op) (obs []Sx) {
+	big := len(ops) > bigLimit
 	root := &api.TicksSinceStart{}
 	facts := map[string]interface{}{}
-	configured := false
-	switch c.kind {
-	case "hours":
+	var pubs []map[int][]plumbing.Hash // every registry captured at Configure time, oldest first
+	var publishedSize time.Duration
+	if c.kind == "hours" {
 		facts[api.ConfigTicksSinceStartTickSize] = int(c.v)
-		configured = true
-	case "default":
-		configured = true
-	case "direct":
-		// Configure creates the registry; the public field is assigned afterwards
-		configured = true
 	}
-	if configured {
+	configure := func() bool {
 		if err := root.Configure(facts); err != nil {
-			return []Sx{T("configure-error")}
+			return false
 		}
+		m, _ := facts[api.FactCommitsByTick].(map[int][]plumbing.Hash)
+		pubs = append(pubs, m)
+		publishedSize, _ = facts[api.FactTickSize].(time.Duration)
+		if c.kind == "direct" {
+			// Configure creates the registry; the public field is assigned afterwards
+			root.TickSize = time.Duration(c.v)
+		}
+		return true
 	}
-	if c.kind == "direct" {
-		root.TickSize = time.Duration(c.v)
+	if !configure() {
+		return []Sx{T("configure-error")}
 	}
 	if err := root.Initialize(repository); err != nil {
 		return []Sx{T("initialize-error")}
@@ -181,6 +204,32 @@ func runCase(c cfg, ops []op) (obs []Sx) {
 			p[i] = I(it.VerifPreviousTick())
 		}
 		return T("prev", p...)
+	}
+	// the observation at the end of an analysis: tick size, published tick size, whether every
+	// branch and every captured fact still are one map, the private registry and the published one
+	phaseEnd := func() []Sx {
+		same := true
+		for _, it := range items {
+			if !sameMap(it.VerifCommits(), root.VerifCommits()) {
+				same = false
+			}
+		}
+		for _, m := range pubs {
+			if m == nil || !sameMap(m, root.VerifCommits()) {
+				same = false
+			}
+		}
+		pub := pubs[len(pubs)-1]
+		pubSx := T("pub", A("eq"))
+		if pub == nil || !sameMap(pub, root.VerifCommits()) {
+			pubSx = regSx("pub", pub)
+		}
+		f := []Sx{I64(int64(root.TickSize)), I64(int64(publishedSize)), B(same), regSx("reg", root.VerifCommits()), pubSx}
+		if big {
+			t0, _ := root.VerifTick0()
+			f = append(f, prevs(), timeSx("t0", t0))
+		}
+		return f
 	}
 	for _, o := range ops {
 		switch o.kind {
@@ -209,6 +258,14 @@ func runCase(c cfg, ops []op) (obs []Sx) {
 				continue
 			}
 			tick := res[api.DependencyTick].(int)
+			if big {
+				if len(res) != 1 {
+					obs = append(obs, T("error"))
+					continue
+				}
+				obs = append(obs, I(tick))
+				continue
+			}
 			t0, _ := items[o.b].VerifTick0()
 			under := items[o.b].VerifCommits()[tick]
 			us := make([]int, len(under))
@@ -225,7 +282,11 @@ func runCase(c cfg, ops []op) (obs []Sx) {
 			for _, cl := range items[o.b].Fork(o.n) {
 				items = append(items, cl.(*api.TicksSinceStart))
 			}
-			obs = append(obs, T("fork", I(first), prevs()))
+			if big {
+				obs = append(obs, T("fork", I(first)))
+			} else {
+				obs = append(obs, T("fork", I(first), prevs()))
+			}
 		case "merge":
 			ok := len(o.bs) > 0
 			for _, b := range o.bs {
@@ -240,7 +301,11 @@ func runCase(c cfg, ops []op) (obs []Sx) {
 				}
 				items[o.bs[0]].Merge(bl)
 			}
-			obs = append(obs, T("u", prevs()))
+			if big {
+				obs = append(obs, T("u"))
+			} else {
+				obs = append(obs, T("u", prevs()))
+			}
 		case "floor":
 			var r time.Time
 			_, p := Catch(func() { r = api.FloorTime(mkTime(o.sec, o.nsec, o.tz), time.Duration(o.d)) })
@@ -250,23 +315,40 @@ func runCase(c cfg, ops []op) (obs []Sx) {
 			}
 			_, off := r.Zone()
 			obs = append(obs, T("time", I64(r.Unix()), I(r.Nanosecond()), I(off/60)))
+		case "init":
+			before := phaseEnd()
+			switch o.v {
+			case 1:
+				// Pipeline.Initialize(facts) called again with the same facts map.  Configure has stored the
+				// time.Duration under "TicksSinceStart.TickSize", which is also the key of the option
+				configure()
+			case 2:
+				// a fresh facts map with the option set
+				facts = map[string]interface{}{}
+				if c.kind == "hours" {
+					facts[api.ConfigTicksSinceStartTickSize] = int(c.v)
+				}
+				configure()
+			case 3:
+				// the same facts map, the option set again
+				if c.kind == "hours" {
+					facts[api.ConfigTicksSinceStartTickSize] = int(c.v)
+				} else {
+					delete(facts, api.ConfigTicksSinceStartTickSize)
+				}
+				configure()
+			}
+			if err := root.Initialize(repository); err != nil {
+				obs = append(obs, T("error"))
+				continue
+			}
+			items = []*api.TicksSinceStart{root}
+			t0, _ := root.VerifTick0()
+			after := T("after", I(len(root.VerifCommits())), I(len(pubs[len(pubs)-1])), I(root.VerifPreviousTick()), I64(t0.Unix()), I(t0.Nanosecond()))
+			obs = append(obs, T("init", append(before, after)...))
 		}
 	}
-	// the registry, and whether every branch and the published fact still are the same map
-	same := true
-	for _, it := range items {
-		if reflect.ValueOf(it.VerifCommits()).Pointer() != reflect.ValueOf(root.VerifCommits()).Pointer() {
-			same = false
-		}
-	}
-	if configured {
-		m, ok := facts[api.FactCommitsByTick].(map[int][]plumbing.Hash)
-		if !ok || reflect.ValueOf(m).Pointer() != reflect.ValueOf(root.VerifCommits()).Pointer() {
-			same = false
-		}
-	}
-	published, _ := facts[api.FactTickSize].(time.Duration)
-	obs = append(obs, T("end", I64(int64(root.TickSize)), I64(int64(published)), B(same), regSx("reg", root.VerifCommits())))
+	obs = append(obs, T("end", phaseEnd()...))
 	return
 }
 
@@ -298,9 +380,25 @@ func spanOK(cf cfg, ops []op) bool {
 	if d == 0 {
 		return true // outside the domain of the formula oracle
 	}
+	const limit = int64(9000000000) // seconds; 2^63 ns = 9.22e9 s
 	first := true
 	var lo, hi int64
+	ok := func() bool {
+		if first {
+			return true
+		}
+		span := hi - lo
+		return span >= 0 && span < limit && d/1000000000+2 < limit-span
+	}
 	for _, o := range ops {
+		if o.kind == "init" {
+			// every analysis has its own start of tick 0
+			if !ok() {
+				return false
+			}
+			first = true
+			continue
+		}
 		if o.kind != "c" {
 			continue
 		}
@@ -312,12 +410,7 @@ func spanOK(cf cfg, ops []op) bool {
 		}
 		first = false
 	}
-	if first {
-		return true
-	}
-	const limit = int64(9000000000) // seconds; 2^63 ns = 9.22e9 s
-	span := hi - lo
-	return span >= 0 && span < limit && d/1000000000+2 < limit-span
+	return ok()
 }
 
 // emitInRange emits a generated case of a stream that must stay inside the range of time.Duration.
@@ -340,6 +433,10 @@ func emit(c *Config, kind string, cf cfg, ops []op) {
 		if o.kind == "c" {
 			consumes++
 		}
+	}
+	if len(ops) > bigLimit {
+		c.Emit(T("kind", A(kind)), T("nt", B(consumes >= 2)), cf.sx(), T("big", I(1)), T("ops", sops...), T("obs", obs...))
+		return
 	}
 	c.Emit(T("kind", A(kind)), T("nt", B(consumes >= 2)), cf.sx(), T("ops", sops...), T("obs", obs...))
 }
@@ -375,14 +472,20 @@ func pickBase(c *Config, dsec int64) int64 {
 	}
 }
 
+// zone offsets in minutes that are not whole hours (India, Nepal, Newfoundland, central Australia,
+// Chatham, Eucla, Iran, Myanmar, Marquesas, Lord Howe, the historical Amsterdam +0:20 rounded)
+var oddZones = []int{330, 345, -210, 570, 765, 525, 210, 390, -570, 630, -150, 20, -44}
+
 func pickTz(c *Config) int {
-	switch c.Rng.Intn(4) {
+	switch c.Rng.Intn(5) {
 	case 0:
 		return 0
 	case 1:
 		return 60 * (c.Rng.Intn(27) - 12)
 	case 2:
 		return 330
+	case 3:
+		return oddZones[c.Rng.Intn(len(oddZones))]
 	default:
 		return c.Rng.Intn(1681) - 840
 	}
@@ -436,6 +539,14 @@ func (b *builder) fork(br, n int) int {
 	}
 	b.nbr += n
 	return first
+}
+
+// the item is initialised again: the forks are dropped, the commit index restarts at 0
+func (b *builder) init(v int) {
+	b.ops = append(b.ops, op{kind: "init", v: v})
+	b.idx = 0
+	b.nbr = 1
+	b.last = b.last[:1]
 }
 
 // a history as the pipeline would run it: branch 0 is the root; the first action keeps a pristine
@@ -852,4 +963,5 @@ func main() {
 		cf, ops := floors(c)
 		emit(c, "floor", cf, ops)
 	}
+	strengthenStreams(c)
 }
